@@ -305,6 +305,12 @@ impl tracing_core::field::Visit for Vis {
     fn record_i64(&mut self, f: &tracing_core::Field, v: i64) {
         self.0.push(format!("{}=i64:{}", f.name(), v))
     }
+    fn record_i128(&mut self, f: &tracing_core::Field, v: i128) {
+        self.0.push(format!("{}=i128:{}", f.name(), v))
+    }
+    fn record_u128(&mut self, f: &tracing_core::Field, v: u128) {
+        self.0.push(format!("{}=u128:{}", f.name(), v))
+    }
     fn record_bool(&mut self, f: &tracing_core::Field, v: bool) {
         self.0.push(format!("{}=bool:{}", f.name(), v))
     }
